@@ -71,6 +71,10 @@ def run(ctx):
     uni = charfam.tlc_universe(ctx, 3, 2)
     rng.shuffle(uni)
     cs = [charfam.concretize(s, rng) for s in uni[: (60 if quick else 800)]] + charfam.seeded_flag_trees(ctx, rng, 4 if quick else 40)
+    # very long passwords: still one choice per position, taken from the stream in order (every run is executed twice)
+    for L in (2047, 2048, 4096, 5000):
+        cs.append(dict(kind="char", char=dict(len=L, allow=15, require=0, exclude=rng.choice([0, 16]), allowChars=[], requireSets=[], excludeChars=[]),
+                       maxTrials=0, failRateOne=0, mode="paths", paths=3, maxLeaves=0, tag="very-long"))
     cfiles, ccells, cleaves = charfam.run_scenarios(ctx, cs, "c09c")
     cverd, _ = charfam.validate(ctx, cfiles)
     ws = [wlfam.tree_scen(rng, budget=1500 if quick else 8000) for _ in range(30 if quick else 400)]
